@@ -532,6 +532,12 @@ fn mutants(r: &Rendered, rng: &mut Rng) -> Vec<Mutant> {
                 match k {
                     "port" => with("out-of-range", Some(format!("{}{} 65536", indent, k)), false, false, &mut out),
                     "threads" => with("out-of-range", Some(format!("{}{} 0", indent, k)), false, false, &mut out),
+                    // sizes whose byte count does not fit: just past i64, and far enough past u64 to wrap onto a plausible value (seeded C15-M)
+                    "size" => {
+                        for big in ["8589934592G", "17179869184G", "17179869185G", "34359738369G", "17592186044417M", "18014398509481985K", "9223372036854775807K", "9223372036854775808", "18446744073709551617", "99999999999999999999G"] {
+                            with("size-overflow", Some(format!("{}{} {}", indent, k, big)), true, false, &mut out);
+                        }
+                    }
                     "threads2" => {}
                     _ => {}
                 }
@@ -665,5 +671,5 @@ pub fn main(args: &Args) {
         r
     });
     let total = Report::merge_all(reports);
-    total.write(out, "configurations generated from a model (address, port, threads, timeout, websocket, blacklist file+mode, log level/console/file, cache size in every unit + time, 0..4 hosts, 0..8 routes per host of every type incl. multi-pattern, proxy lists, load-balancer mode), each rendered in 3 layouts (random indentation incl. tabs, comments, blank lines, key and section order, quoting, CRLF, two of them split into included files incl. nested includes); then every single-fault mutant of one rendering (missing brace, missing value, bad number, unknown unit, non-ASCII in number/unit, bad boolean, unterminated quote, unquoted string, bad enum, out-of-range, negative, list file that cannot be opened). distinct = distinct models; every model is non-trivial (it is compared field by field)", None, &["`#` and `\"` inside values are not generated (the syntax has no escape)", "LoadBalancer.lcg is excluded from the comparison (time-seeded)", "include paths are absolute (the loader resolves them against the process's working directory)", "for a missing closing brace any line at or after the fault is accepted (the error can only surface later)"]);
+    total.write(out, "configurations generated from a model (address, port, threads, timeout, websocket, blacklist file+mode, log level/console/file, cache size in every unit + time, 0..4 hosts, 0..8 routes per host of every type incl. multi-pattern, proxy lists, load-balancer mode), each rendered in 3 layouts (random indentation incl. tabs, comments, blank lines, key and section order, quoting, CRLF, two of them split into included files incl. nested includes); then every single-fault mutant of one rendering (missing brace, missing value, bad number, unknown unit, non-ASCII in number/unit, bad boolean, unterminated quote, unquoted string, bad enum, out-of-range, sizes beyond 2^63 and 2^64 bytes, negative, list file that cannot be opened). distinct = distinct models; every model is non-trivial (it is compared field by field)", None, &["`#` and `\"` inside values are not generated (the syntax has no escape)", "LoadBalancer.lcg is excluded from the comparison (time-seeded)", "include paths are absolute (the loader resolves them against the process's working directory)", "for a missing closing brace any line at or after the fault is accepted (the error can only surface later)"]);
 }
